@@ -161,3 +161,6 @@ pub fn catch<T>(f: impl FnOnce() -> T) -> Result<T, Panic> {
         Err(_) => { let (loc, msg) = LAST_PANIC.with(|p| p.borrow_mut().take()).unwrap_or(("?\u{1}?".into(), "?".into())); let (l, s) = loc.split_once('\u{1}').map(|(a, b)| (a.to_string(), b.to_string())).unwrap_or((loc.clone(), loc.clone())); Err(Panic { loc: l, site: s, msg }) }
     }
 }
+
+/// flat notation of an envelope for reports; formatting itself may be what is broken, so it is guarded
+pub fn ff(e: &bc_envelope::Envelope) -> String { catch(|| e.format_flat()).unwrap_or_else(|p| format!("<format_flat panicked at {}>", p.loc)) }
